@@ -170,7 +170,7 @@ impl WriteSource for pr::ExprKind {
                 for (name, arg) in func_call.named_args.iter().sorted_by_key(|(name, _)| *name) {
                     r += opt.consume(" ")?;
 
-                    r += opt.consume(name)?;
+                    r += opt.consume(&write_ident_part(name))?;
 
                     r += opt.consume(":")?;
 
